@@ -58,13 +58,22 @@ RULE = ('sweep: every BaseException subclass exported by builtins (69 names on 3
         'metacharacters in their repr (sites partial / callobj, generated and in the exhaustive '
         'sweep brace-reprs: 8 callable-instance reprs and 6 functools.partial arguments with '
         '{..}, {}, {0}, {x}, unbalanced braces, %s, %(a)s, 100% x 4 link shapes x scope x 4 '
-        'exceptions), registered with gin.external_configurable(obj, name=). Non-trivial = '
+        'exceptions), registered with gin.external_configurable(obj, name=). Chaining: the '
+        'raise is plain, `from other` or `from None`, optionally after e.add_note(); re-raising '
+        'bodies may use `raise exc from other` (generated; three such cases per builtin '
+        'expression in the sweep). Signatures of the raiser: 10 shapes (defaults only, required '
+        'positional, positional-only, keyword-only with none / one defaulted, *args, **kwargs '
+        'and mixes), arguments supplied by the Python caller or, for evaluated references, by '
+        'bindings; exhaustive sweep signatures: 10 shapes x 6 sites x 3 link shapes x '
+        '{TypeError, TypeError subclass with required arguments, KeyError, KeyboardInterrupt}; '
+        'TypeError is over-sampled by the generator. Non-trivial = '
         'the original has a public data attribute besides args, or its constructor has required '
         'arguments, or >=2 configurables are on the stack. Distinct = distinct case JSON.')
 ASSUMPTIONS = [
     '"public attribute" = a name from dir(e) not starting with "_" whose value on the original is '
-    'readable and not callable; dunder attributes other than __traceback__ (__cause__, '
-    '__context__, __notes__, __dict__) are not compared: the statement does not name them',
+    'readable and not callable; of the dunder attributes only __traceback__, __cause__, '
+    '__suppress_context__ and __notes__ are looked at (see below), __context__ and __dict__ '
+    'are not',
     'the reference values (str(e), the public data of e) are recorded by the raiser immediately '
     'before the raise statement; an implementation that extended the message by mutating the '
     'original in place would still be compared with the message as raised',
@@ -74,6 +83,15 @@ ASSUMPTIONS = [
     'gin.current_scope_str() occur in str(e2) after the prefix str(e); nothing else of the text '
     'is compared, further "In call to configurable" lines for outer configurables are accepted',
     'only the innermost configurable (the one whose body raised) is required to be named',
+    'explicit chaining and notes are data of the exception: __cause__ (by identity) and __notes__ '
+    'must read at the caller as the raise statement (`raise e from other` / `from None` / plain, '
+    'also `raise exc from other` in a re-raising body) left them, and __suppress_context__ must '
+    'still be True after a raise with `from`. __suppress_context__ after a raise WITHOUT `from` '
+    'is not asserted: the tree delivers True there (side effect of copying __cause__ = None), '
+    'which changes the printed traceback only; it is counted under the label '
+    'observed:suppress-context-set-on-plain-raise. __context__ is not compared at all: Python '
+    'itself rewrites it when Gin re-raises from inside its except block (it becomes the '
+    'original exception object), so no value is attributable to the raise site',
     'when an intermediate configurable body catches, changes and re-raises the exception, the '
     'object as it leaves that body (message, public data, scope and name of that configurable) '
     'is the original for the configurables further out, and that body is itself a caller: what '
@@ -112,6 +130,12 @@ FLOORS = {
     'twin:first': 0.03,
     'catch:reraised': 0.05,
     'raiser-repr:braces': 0.02,
+    'raise-from': 0.03,
+    'raise-from-None': 0.02,
+    'note-added': 0.02,
+    'sig:kwonly-none-defaulted': 0.03,
+    'typeerror:kwonly-none-defaulted': 0.005,
+    'typeerror:non-default-signature': 0.01,
     'raiser-repr:percent': 0.005,
     'catch:mutated-outside-dict': 0.04,
 }
@@ -207,7 +231,7 @@ def family(cls):
 
 
 # ----------------------------------------------------------------------------- user classes
-SINGLE_BASES = ['Exception', 'ValueError', 'TypeError', 'KeyError', 'LookupError', 'RuntimeError',
+SINGLE_BASES = ['Exception', 'ValueError', 'TypeError', 'TypeError', 'TypeError', 'KeyError', 'LookupError', 'RuntimeError',
                 'OSError', 'FileNotFoundError', 'ImportError', 'StopIteration', 'AttributeError',
                 'NameError', 'ArithmeticError', 'UnicodeError', 'AssertionError', 'UserWarning',
                 'BaseException', 'KeyboardInterrupt']
@@ -432,7 +456,7 @@ _catch_link = st.builds(
     lambda s, m, r: {'kind': 'catch', 'scope': s, 'mut': sorted(m), 'reraise': r},
     st.sampled_from(LINK_SCOPES),
     st.lists(st.sampled_from(MUTATIONS), min_size=0, max_size=4, unique=True),
-    st.sampled_from(['bare', 'bare', 'named']))
+    st.sampled_from(['bare', 'bare', 'named', 'from']))
 _link = st.one_of(_plain_link, _plain_link, _plain_link, _catch_link)
 
 
@@ -444,12 +468,38 @@ OBJ_REPRS = ["PyObj({'a': 1})", '<PyObj {x}>', '<PyObj {}>', '<PyObj {0}>', '<Py
 PARTIAL_ARGS = ["{'a': 1}", '{1, 2}', "'{}'", "'{0} {x}'", "'%s %(a)s 100%'", "['{', '}}']"]
 
 
+# signature of the raising configurable: (parameters, arguments a Python caller passes,
+# bindings that supply the required named parameters when Gin evaluates it as a reference)
+SIGS = [
+    ('x=None', '', []),
+    ('a, x=None', '1', ['a']),
+    ('a, /, x=None', '1', None),                       # positional-only: not bindable, see eff_sig
+    ('a, *, schema', "1, schema='s'", ['a', 'schema']),            # keyword-only, none defaulted
+    ('*, schema, strict=False', "schema='s'", ['schema']),        # keyword-only, one defaulted
+    ('a, b=2, *args, opt=None, **kwargs', '1, 2, 3, k=4', ['a']),
+    ('*args, **kwargs', '1, k=2', []),
+    ('a, *, schema, **kwargs', "1, schema='s', z=3", ['a', 'schema']),
+    ('x=None, *, flag=True', '', []),
+    ('*, schema', "schema='s'", ['schema']),
+]
+KWONLY_NO_DEFAULT = {3, 7, 9}
+
+
+def eff_sig(case):
+  """Index into SIGS actually used: a raiser evaluated as @f() cannot get positional-only
+  arguments from Gin, so that shape falls back to the plain required parameter."""
+  i = case.get('sig', 0) % len(SIGS)
+  by_ref = bool(case['links']) and case['links'][-1]['kind'] == 'ref' and case['site'] != 'method'
+  return 1 if (by_ref and SIGS[i][2] is None) else i
+
+
 def _chain(draw):
   site = draw(st.sampled_from(['fn', 'fn', 'fn', 'ctor', 'ctor', 'ctor_new', 'method', 'method',
                                'partial', 'callobj']))
   return {
       'site': site,
       'style': draw(st.integers(0, 7)),
+      'sig': draw(st.sampled_from([0, 0, 0, 1, 2, 3, 3, 4, 5, 6, 7, 8, 9])),
       'how': 'register' if site == 'method' else 'external' if site in (
           'partial', 'callobj') else draw(
               st.sampled_from(['configurable', 'configurable', 'register', 'external'])),
@@ -457,7 +507,8 @@ def _chain(draw):
       'links': draw(st.lists(_link, max_size=3)),
       'inter': draw(st.sampled_from(['fn', 'fn', 'cls'])),
       'scope': draw(st.sampled_from(SCOPES)),
-      'cause': draw(st.integers(0, 5)) == 0,
+      'cause': draw(st.sampled_from([False, False, False, True, True, 'none'])),
+      'note': draw(st.integers(0, 3)) == 0,
       'twin': draw(st.integers(0, 2)) == 0,
       'origin': 'gen',
   }
@@ -467,7 +518,7 @@ def _chain(draw):
 def _gen_case(draw):
   case = _chain(draw)
   if draw(st.integers(0, 3)) == 0:
-    name = draw(st.sampled_from(builtin_names()))
+    name = draw(st.sampled_from(builtin_names() + ['TypeError'] * 12))
     case['exc'] = {'builtin': name, 'expr': draw(st.sampled_from(builtin_exprs(name)))}
   else:
     case['exc'] = draw(_user_spec())
@@ -506,6 +557,16 @@ def sweep_builtins(tier):
                       'how': 'configurable', 'mhow': 'register', 'links': links, 'inter': 'fn',
                       'scope': 'zsa' if len(links) == 2 else '', 'cause': False,
                       'origin': 'sweep'})
+      # explicit chaining / notes set at the raise site: `raise e from other` at depth 2 in a
+      # scope, `raise e from None` with a note at depth 1, and a body re-raising `from other`
+      for cause, note, links, scope in (
+          (True, False, [{'kind': 'call', 'scope': ''}], 'zsa'),
+          ('none', True, [], ''),
+          (True, True, [{'kind': 'catch', 'scope': '', 'mut': [], 'reraise': 'from'},
+                        {'kind': 'call', 'scope': ''}], '')):
+        cases.append({'exc': {'builtin': name, 'expr': expr}, 'site': 'fn',
+                      'how': 'configurable', 'mhow': 'register', 'links': links, 'inter': 'fn',
+                      'scope': scope, 'cause': cause, 'note': note, 'origin': 'sweep'})
       # 'twin first': an equally named distinct class crosses a configurable before this one
       cases.append({'exc': {'builtin': name, 'expr': expr}, 'site': 'fn', 'how': 'configurable',
                     'mhow': 'register', 'links': [], 'inter': 'fn', 'scope': '', 'cause': False,
@@ -558,8 +619,31 @@ def sweep_reprs(tier):
   return cases, True
 
 
+def sweep_signatures(tier):
+  """Every signature shape of the raiser x site x link shape, for TypeError (Gin's special
+  path), a TypeError subclass with required arguments, KeyError and KeyboardInterrupt."""
+  del tier
+  excs = [{'builtin': 'TypeError', 'expr': "TypeError('a message')"},
+          plain_user_spec(['TypeError'], ('field', 3), init='all', store=True),
+          {'builtin': 'KeyError', 'expr': "KeyError('k')"},
+          {'builtin': 'KeyboardInterrupt', 'expr': 'KeyboardInterrupt()'}]
+  call, ref = {'kind': 'call', 'scope': ''}, {'kind': 'ref', 'scope': ''}
+  cases = []
+  for sig in range(len(SIGS)):
+    for site in ('fn', 'ctor', 'ctor_new', 'method', 'partial', 'callobj'):
+      for n, links in enumerate(([], [call], [ref])):
+        for exc in excs:
+          cases.append({'exc': exc, 'site': site, 'style': sig, 'sig': sig,
+                        'how': ('register' if site == 'method' else 'external' if site in (
+                            'partial', 'callobj') else ('configurable', 'register')[sig % 2]),
+                        'mhow': ('register', 'configurable')[sig % 2], 'links': links,
+                        'inter': 'fn', 'scope': ('', 'zsa/zsb')[(sig + n) % 2], 'cause': False,
+                        'origin': 'sweep'})
+  return cases, True
+
+
 SWEEPS = {'builtin-classes': sweep_builtins, 'mi-ordered-pairs': sweep_mi_pairs,
-          'brace-reprs': sweep_reprs}
+          'brace-reprs': sweep_reprs, 'signatures': sweep_signatures}
 
 
 def build_chain(case):
@@ -568,11 +652,18 @@ def build_chain(case):
   n = len(links) + 1
   last = n - 1
   site, how = case['site'], case['how']
-  raise_stmt = "raise e from HOLD['cause']  # RAISE" if case.get('cause') else 'raise e  # RAISE'
+  raise_stmt = {True: "raise e from HOLD['cause']  # RAISE", 'none': 'raise e from None  # RAISE'
+               }.get(case.get('cause'), 'raise e  # RAISE')
+  params, callargs, bound = SIGS[eff_sig(case)]
+  by_ref = bool(links) and links[-1]['kind'] == 'ref' and site != 'method'
+  if by_ref:
+    callargs = ''
   # the raiser keeps the original object, its message and its public data as they are at the raise
   raiser_body = ['e = _make()', "HOLD['e'] = e", "HOLD['str'] = str(e)",
                  "HOLD['data'] = _public_data(e)", "HOLD['scope'] = gin.current_scope_str()",
                  raise_stmt]
+  if case.get('note'):
+    raiser_body.insert(1, "e.add_note('note added at the raise site')")
   out = ['import gin', '']
   invoke = {}       # index -> expression a Python caller uses
   viaref = {}       # index -> expression over the evaluated reference value `x`
@@ -588,26 +679,27 @@ def build_chain(case):
   if site == 'fn':
     py = f'pyfn{last}'
     pre, post = decorate(how, last, py)
-    out += pre + [f'def {py}(x=None):'] + ['  ' + l for l in raiser_body] + post
-    invoke[last] = f'{py}()' if how == 'configurable' else f"gin.get_configurable('{name}')()"
+    out += pre + [f'def {py}({params}):'] + ['  ' + l for l in raiser_body] + post
+    invoke[last] = (f'{py}({callargs})' if how == 'configurable' else
+                    f"gin.get_configurable('{name}')({callargs})")
     viaref[last] = 'x'
     inner, code_name = name, py
   elif site == 'partial':
     py = f'pyfn{last}'
     arg = PARTIAL_ARGS[case.get('style', 0) % len(PARTIAL_ARGS)]
     out = ['import functools'] + out
-    out += [f'def {py}(cfg, x=None):'] + ['  ' + l for l in raiser_body]
+    out += [f'def {py}(cfg, {params}):'] + ['  ' + l for l in raiser_body]
     out += [f'pypartial = functools.partial({py}, {arg})',
             f"gin.external_configurable(pypartial, name='{name}')"]
-    invoke[last] = f"gin.get_configurable('{name}')()"
+    invoke[last] = f"gin.get_configurable('{name}')({callargs})"
     viaref[last] = 'x'
     inner, code_name = name, py
   elif site == 'callobj':
     text = OBJ_REPRS[case.get('style', 0) % len(OBJ_REPRS)]
     out += [f'class PyObj{last}:', '  def __repr__(self):', f'    return {text!r}',
-            '  def __call__(self, x=None):'] + ['    ' + l for l in raiser_body]
+            f'  def __call__(self, {params}):'] + ['    ' + l for l in raiser_body]
     out += [f'pyobj = PyObj{last}()', f"gin.external_configurable(pyobj, name='{name}')"]
-    invoke[last] = f"gin.get_configurable('{name}')()"
+    invoke[last] = f"gin.get_configurable('{name}')({callargs})"
     viaref[last] = 'x'
     inner, code_name = name, '__call__'
   elif site in ('ctor', 'ctor_new'):
@@ -615,21 +707,25 @@ def build_chain(case):
     meth = '__init__' if site == 'ctor' else '__new__'
     first = 'self' if site == 'ctor' else 'cls'
     pre, post = decorate(how, last, py)
-    out += pre + [f'class {py}:', f'  def {meth}({first}, x=None):']
+    out += pre + [f'class {py}:', f'  def {meth}({first}, {params}):']
     out += ['    ' + l for l in raiser_body] + post
-    invoke[last] = f'{py}()' if how == 'configurable' else f"gin.get_configurable('{name}')()"
+    invoke[last] = (f'{py}({callargs})' if how == 'configurable' else
+                    f"gin.get_configurable('{name}')({callargs})")
     viaref[last] = 'x'
     inner, code_name = name, meth
   else:
     py = f'PyK{last}'
     out += [f"@gin.register('{name}')", f'class {py}:', '  def __init__(self, x=None):',
-            '    self.x = x', f"  @gin.{case['mhow']}('zq_meth')", '  def pymeth(self, y=None):']
+            '    self.x = x', f"  @gin.{case['mhow']}('zq_meth')",
+            f'  def pymeth(self, {params}):']
     out += ['    ' + l for l in raiser_body]
-    invoke[last] = f"gin.get_configurable('{name}')().pymeth()"
-    viaref[last] = 'x.pymeth()'
+    invoke[last] = f"gin.get_configurable('{name}')().pymeth({callargs})"
+    viaref[last] = f'x.pymeth({callargs})'
     inner, code_name = 'zq_meth', 'pymeth'
   out.append('')
   bindings = []
+  if by_ref:      # Gin supplies the required named parameters of the referenced raiser
+    bindings += [f"zq_k{last}.{b} = {'1' if b == 'a' else repr('s')}" for b in bound]
   for i in range(last - 1, -1, -1):
     link = links[i]
     if link['kind'] in ('call', 'catch'):
@@ -639,7 +735,8 @@ def build_chain(case):
       if link['kind'] == 'catch':
         ret = (['try:'] + ['  ' + l for l in ret] + ['except BaseException as exc:',
                f"  _caught(exc, {i}, {sorted(link.get('mut', []))!r}, 'zq_k{i}')",
-               '  raise exc' if link.get('reraise') == 'named' else '  raise'])
+               {'named': '  raise exc', 'from': "  raise exc from HOLD['cause2']"}.get(
+                   link.get('reraise'), '  raise')])
     else:
       ret = [f'return {viaref[i + 1]}']
       sc = link['scope'] + '/' if link['scope'] else ''
@@ -709,6 +806,11 @@ def mutate(e, kinds, level):
     e.enriched = ['by-level', level]
     applied.add('dict')
   return sorted(applied)
+
+
+def chain_fields(exc):
+  notes = getattr(exc, '__notes__', None)
+  return (exc.__cause__, exc.__suppress_context__, list(notes) if notes is not None else None)
 
 
 def caught_by(exc, cls):
@@ -789,7 +891,8 @@ def check_case(case):
   mod = types.ModuleType(PROBE)
   mod.__file__ = PROBE_FILE
   sys.modules[PROBE] = mod
-  mod.HOLD = {'e': None, 'scope': None, 'cause': LookupError('the cause')}
+  mod.HOLD = {'e': None, 'scope': None, 'cause': LookupError('the cause'),
+              'cause2': ArithmeticError('cause given by a re-raising body')}
   mod.gin = gin
   mod._public_data = public_data  # pylint: disable=protected-access
   levels = []      # one record per catching intermediate body, innermost first
@@ -797,7 +900,8 @@ def check_case(case):
   def _caught(obj, level, kinds, name):
     # what this body (the caller of the configurables below) caught, then what leaves it: the
     # exception object as re-raised is "the original" for the configurables further out
-    rec = {'seen': obj, 'seen_str': str(obj), 'seen_data': public_data(obj), 'name': name}
+    rec = {'seen': obj, 'seen_str': str(obj), 'seen_data': public_data(obj), 'name': name,
+           'seen_chain': chain_fields(obj)}
     rec['applied'] = mutate(obj, kinds, level)
     rec.update(scope=gin.current_scope_str(), str=str(obj), data=public_data(obj))
     levels.append(rec)
@@ -923,13 +1027,36 @@ def check_case(case):
 
   # every catching intermediate body is a caller of the configurables below it; what it re-raises
   # is the original for the configurables further out
+  def compare_chain(want, got, where):
+    # explicit chaining and notes are data of the exception: what the raise statement (or the
+    # re-raising body) set must be what the caller reads; __cause__ by identity
+    for field, w, g in zip(('__cause__', '__suppress_context__', '__notes__'), want, got):
+      if field == '__suppress_context__' and not w:
+        # Not asserted for a raise without `from`: the tree under test delivers True there
+        # (the state copy assigns __cause__ = None after __suppress_context__, and assigning
+        # __cause__ sets the flag).  Counted, reported as an observation, see ASSUMPTIONS.
+        if g:
+          labels.add('observed:suppress-context-set-on-plain-raise')
+        continue
+      require(g is w if field == '__cause__' else g == w, 'chaining-differs',
+              lambda: f'{where}: {field} was set to {short(w)} where the exception was raised, '
+                      f'the caught object reads {short(g)}\n{describe()}')
+
   ref = (str_e, orig, scope, inner)
-  for rec in levels:
-    compare(ref, rec['seen'], rec['seen_str'], rec['seen_data'].__getitem__,
-            f"in the body of {rec['name']}")
+  cause = case.get('cause')
+  chain = (mod.HOLD['cause'] if cause is True else None, cause in (True, 'none'),
+           ['note added at the raise site'] if case.get('note') else None)
+  catch_links = [l for l in reversed(case['links']) if l['kind'] == 'catch']
+  for rec, link in zip(levels, catch_links):
+    where = f"in the body of {rec['name']}"
+    compare(ref, rec['seen'], rec['seen_str'], rec['seen_data'].__getitem__, where)
+    compare_chain(chain, rec['seen_chain'], where)
     ref = (rec['str'], rec['data'], rec['scope'], rec['name'])
+    if link.get('reraise') == 'from':
+      chain = (mod.HOLD['cause2'], True, chain[2])
   scope = ref[2]
   compare(ref, e2, str(e2), lambda name: getattr(e2, name), 'at the caller')
+  compare_chain(chain, chain_fields(e2), 'at the caller')
   if isinstance(e, Exception):
     labels.add('augmented' if e2 is not e else 'same-object')
   else:
@@ -1004,7 +1131,19 @@ def check_case(case):
   if case['inter'] == 'cls' and case['links']:
     labels.add('intermediate:class')
   if case.get('cause'):
-    labels.add('raise-from')
+    labels.add('raise-from' if case['cause'] is True else 'raise-from-None')
+  if case.get('note'):
+    labels.add('note-added')
+  sig = eff_sig(case)
+  labels.add(f'sig:{SIGS[sig][0]}')
+  if sig in KWONLY_NO_DEFAULT:
+    labels.add('sig:kwonly-none-defaulted')
+  if isinstance(e, TypeError):
+    labels.add('typeerror')
+    if sig in KWONLY_NO_DEFAULT:
+      labels.add('typeerror:kwonly-none-defaulted')
+    if sig:
+      labels.add('typeerror:non-default-signature')
   if e.args:
     labels.add('args:non-empty')
   if typed:
